@@ -43,11 +43,15 @@ def cmpAcceptsElem (res : Res) (op : Op) (right : Seg) (o : CmpOut) : Bool :=
       | none => true          -- operator outside the element kind's set: unspecified
   else true
 
-def cmpAccepts (n : Node) (v : Val) (p : List Seg) (op : Op) (right : Seg) (o : CmpOut) : Bool :=
-  match nav n v p with
+/-- Acceptance given where navigation ended. -/
+def cmpAcceptsNav (r : NavR) (op : Op) (right : Seg) (o : CmpOut) : Bool :=
+  match r with
   | .found res via => cmpAcceptsElem res op right o || (via && o == .untouched)
   | .miss _ => o == .untouched
   | .perr via => o == .err || (via && o == .untouched)
   | .unspec => true
+
+def cmpAccepts (n : Node) (v : Val) (p : List Seg) (op : Op) (right : Seg) (o : CmpOut) : Bool :=
+  cmpAcceptsNav (nav n v p) op right o
 
 end Inspector
